@@ -1,4 +1,5 @@
 """C10 — how the compiler chooses to implement an expression is unobservable (static clauses)."""
+import re
 from mirlib import *
 from rules import tables, vmx, chain, csa_run, c01
 from rules.psc import sym, strip
@@ -87,6 +88,29 @@ def check_fused_equals_generic(ctx, rep, r1, r3=None):
         gmeth = sorted(m for m, _ in gc) if gc else None
         rep.ob(fmeth is not None and fmeth == gmeth and len(fmeth) == 1, r1, fm['fn'].path, 'Operator::%s' % op,
                'fused OpCode::%s applies Object::%s; generic OpCode::%s applies Object::%s' % (fused, fmeth, g, gmeth), fm['fn'].loc())
+        # ... and hands on what the method answered, nothing computed from it: the value each arm pushes, written over its two
+        # operands (left = the second value popped / the frame slot, right = the first value popped / the pool constant), is the same
+        # expression in both arms (a generic arm that post-processes the method's answer while its fused twin does not - a changed
+        # rounding, a corrected sign - makes the choice of instruction observable)
+        def pushed_shape(opc):
+            arm_ = vmx.vmx(ctx)['arms'].get(opc) if isinstance(opc, str) else None
+            if not arm_:
+                return None
+            out_ = set()
+            for r_ in arm_['paths']:
+                if r_['kind'] != 'continue':
+                    continue
+                for pv in r_.get('pushed') or []:
+                    x = str(pv)
+                    x = re.sub(r'pop#2|local\[operand#1\]', 'L', x)
+                    x = re.sub(r'pop#1|_\d+\[operand#2\]', 'R', x)
+                    x = re.sub(r'\b_\d+\b', '_', x)
+                    out_.add(x)
+            return sorted(out_)
+        fsh, gsh = pushed_shape(fused), pushed_shape(g)
+        if fmeth is not None and fmeth == gmeth and len(fmeth) == 1:
+            rep.ob(fsh is not None and fsh == gsh, r1, fm['fn'].path, 'Operator::%s result' % op,
+                   'fused OpCode::%s pushes %s; generic OpCode::%s pushes %s' % (fused, fsh, g, gsh), fm['fn'].loc())
         rep.sample({'operator': op, 'fused': fused, 'generic': g, 'callee': fmeth})
     rep.count('fused_opcodes', n)
 
@@ -189,6 +213,41 @@ def check_pool_by_value(ctx, rep, rule):
                'a literal can be changed for later evaluations of the same literal' % (ty, P[ty][0], ty, M[ty][0].split(' ')[0]), 'src/vm.rs')
     for ty in sorted(set(P) - set(M)):
         rep.good(rule, 'vm::VM::run', 'pooled %s' % ty, 'values of this type are never mutated in place', 'src/vm.rs')
+    # ... and OpCode::Const is the only way out of the pool: in every other arm a value read from the pool (`constants[operand]`) is
+    # an operand of an Object method that computes a new value - it is not pushed, not stored in a variable or into an array, not
+    # handed to any other routine (a fused `a[i] = "text"` would store the pooled string itself)
+    fnv = v['fn']
+    n_arms = 0
+    for op_, arm_ in sorted(v['arms'].items()):
+        if op_ == 'Const':
+            continue
+        for r in arm_['paths']:
+            if r['kind'] not in ('continue',):
+                continue
+            def pooled(x):
+                for m_ in re.finditer(r'_(\d+)\[operand#\d+\]', str(x)):
+                    ty_ = fnv.local_ty(int(m_.group(1))) or ''
+                    if 'object::Object' in ty_ and ('[' in ty_ or 'Vec<' in ty_):
+                        return m_.group(0)
+                return None
+            leaks = []
+            for pv in r.get('pushed') or []:
+                x = str(pv)
+                if pooled(x) and re.fullmatch(r'_\d+\[operand#\d+\]', x.strip()):
+                    leaks.append('pushed as it is')
+            for c in r['calls']:
+                if c['callee'].startswith('object::Object::') or c['callee'] in ('vm::VM::get_local',):
+                    continue
+                hit = [a for a in c['args'] if pooled(a)]
+                if hit:
+                    leaks.append('handed to %s' % c['callee'].split('::')[-1])
+            if any(pooled(c['args']) for c in r['calls']) or any(pooled(pv) for pv in (r.get('pushed') or [])):
+                n_arms += 1
+            if leaks:
+                rep.bad(rule, 'vm::VM::run', 'OpCode::%s lets a pooled constant out' % op_,
+                        'a value read from the constant pool is %s without being copied: a string or array literal can then be changed (or released) through it' % ', '.join(sorted(set(leaks))), 'src/vm.rs')
+                break
+    rep.count('arms_reading_the_pool', n_arms)
 
 
 def check_dedup(ctx, rep, rule):
